@@ -1285,7 +1285,54 @@ pub fn gen_xmark(r: &mut Rng, _i: u64) -> String {
 }
 
 /// arbitrary call orders (no protocol): any op at any time, G2 calls with stale markers
+/// recipe: the marker of a record whose RDATA is cut off by the end of the message is taken without
+/// reading the data; later a typed read of another record fails inside its RDATA window (the reader's
+/// cursor stays there); then random access with the first marker — whose answer (an error) must be the
+/// one a fresh reader gives
+fn gen_cut_marker_history(r: &mut Rng) -> Option<String> {
+    let mut m = gen_msg(r, true);
+    for s in 0..3 {
+        m.sections[s].truncate(2);
+        for rec in m.sections[s].iter_mut() {
+            rec.rdlen_delta = 0;
+        }
+    }
+    let (buf, layout) = encode(&m, pick_mode(r), r);
+    let nrec = layout.records.len();
+    if nrec < 2 || nrec > 5 {
+        return None;
+    }
+    let (_, _, start, rdlen, _) = layout.records[nrec - 1];
+    if rdlen < 2 || start + rdlen != buf.len() {
+        return None;
+    }
+    let cut = start + r.range(1, rdlen as u64 - 1) as usize;
+    let first_sec = (0..3).find(|&s| !m.sections[s].is_empty())?;
+    let (_, _, _, rdlen0, rtype0) = layout.records[0];
+    // a type whose decoder cannot consume record 0's RDATA exactly
+    let wrong = if rtype0 == T_A || rdlen0 == 4 { "AAAA" } else { "A" };
+    let mut ops: Vec<String> = vec!["hd".into(), "sq".into()];
+    for _ in 0..nrec - 1 {
+        ops.push(r.pick(&G1).to_string());
+        ops.push("sk".into());
+    }
+    ops.push("mk".into());
+    ops.push(format!("seek:{}", first_sec));
+    ops.push("mk".into());
+    ops.push(format!("dt:{}", wrong));
+    let last = nrec - 1;
+    for op in [format!("dba:{}", last), format!("dta:{}:A", last), format!("nra:{}", last), "dba:0".to_string(), format!("dba:{}", last)] {
+        ops.push(op);
+    }
+    Some(format!("reader {} {}", to_hex(&buf[..cut]), ops.join(" ")))
+}
+
 pub fn gen_readerx(r: &mut Rng, _i: u64) -> String {
+    if r.chance(1, 12) {
+        if let Some(line) = gen_cut_marker_history(r) {
+            return line;
+        }
+    }
     let (buf, _m, _layout) = gen_message_bytes(r);
     let n_ops = r.range(1, 25);
     let mut ops: Vec<String> = Vec::new();
@@ -1455,7 +1502,7 @@ pub fn gen_rrset(r: &mut Rng, _i: u64) -> String {
         answers.push(GRec {
             owner: if r.chance(1, 3) { from.flip_case(r) } else { from },
             rtype: T_CNAME,
-            rclass: if r.chance(1, 15) { 3 } else { qclass },
+            rclass: if r.chance(1, 15) { *r.pick(&[3u16, qclass | 0x8000, qclass + 256]) } else { qclass },
             ttl: r.below(500) as u32,
             data: GData::Dn(if r.chance(1, 3) { to.flip_case(r) } else { to }),
             rdlen_delta: 0,
@@ -1514,7 +1561,7 @@ pub fn gen_rrset(r: &mut Rng, _i: u64) -> String {
         answers.push(GRec {
             owner: if r.chance(1, 3) { owner.flip_case(r) } else { owner },
             rtype: if r.chance(7, 8) { want } else { *r.pick(&ALL_TYPES) },
-            rclass: if r.chance(9, 10) { qclass } else { 4 },
+            rclass: if r.chance(9, 10) { qclass } else { *r.pick(&[4u16, qclass | 0x8000, qclass ^ 1, qclass + 256, 255, 254]) },
             ttl: r.below(100000) as u32,
             data: gen_data(r, want, true),
             rdlen_delta: 0,
